@@ -1,4 +1,5 @@
 import XetModel.Dedup
+import XetModel.DedupFirstLoop
 import Driver.Prims
 namespace Xet.Drv
 open Xet.Dedup
@@ -65,6 +66,39 @@ def parseFile (s : String) : Option (Bytes × Hash × List Call) :=
 def fileInfoStr (f : FileInfo) : String :=
   s!"{hashHex f.hash}:{f.flags}:{f.numEntries}[{segsStr f.segs}][{",".intercalate (f.verif.map hashHex)}][{match f.metaExt with | some m => hashHex m | none => "-"}]"
 
+/-- `pos:k` (answer of `k` chunks) or `pos:-` (miss), comma separated; `-` = nothing asked -/
+def parsePassLog (s : String) : Option (List (Nat × Option Nat)) :=
+  if s == "-" || s.isEmpty then some [] else
+  (s.splitOn ",").mapM fun t =>
+    match t.splitOn ":" with
+    | [p, k] => do
+      let p ← p.toNat?
+      if k == "-" then some (p, none) else some (p, some (← k.toNat?))
+    | _ => none
+
+/-- the lookup interface of one pass, replayed from the log: the query's length identifies the position; a position the
+    implementation never asked about gets the sentinel answer `n = 0`, at which the model stops -/
+def passOracle (n : Nat) (log : List (Nat × Option Nat)) (hs : List Hash) : Option (Nat × Seg) :=
+  match log.find? fun e => e.1 == n - hs.length with
+  | some (_, some k) => some (k, ⟨Hash.zero, 0, 0, 0, k⟩)
+  | some (_, none) => none
+  | none => some (0, ⟨Hash.zero, 0, 0, 0, 0⟩)
+
+/-- positions one pass asked about, read off the slots before and after it -/
+def askedPositions (n : Nat) (before after : Answers) : Nat → Nat → List Nat
+  | 0, _ => []
+  | fuel+1, p =>
+    if p ≥ n then [] else
+    match (before[p]?).join with
+    | some (k, _) => if k = 0 then [] else askedPositions n before after fuel (p + k)
+    | none =>
+      match (after[p]?).join with
+      | some (k, _) => if k = 0 then [p] else p :: askedPositions n before after fuel (p + k)
+      | none => p :: askedPositions n before after fuel (p + 1)
+
+def slotsStr (a : Answers) : String :=
+  ",".intercalate ((a.zipIdx.filterMap fun p => p.1.map fun x => s!"{p.2}:{x.1}"))
+
 def handleDedup (_blob : Blob) (cmd : String) (toks : List String) : String :=
   let P := realPrims
   match cmd, kvNat toks "maxb", kvNat toks "maxc" with
@@ -92,6 +126,21 @@ def handleDedup (_blob : Blob) (cmd : String) (toks : List String) : String :=
       let r := aggs.foldl step (Agg.empty, [])
       let f := r.1.finalize P
       " ; ".intercalate (r.2 ++ [s!"{xorbStr f.xorb}<{" ".intercalate (f.files.map fileInfoStr)}>"])
+  | "dedup.firstpass", _, _ =>
+    match kvNat toks "n", (kv toks "p0").bind parsePassLog with
+    | some n, some l0 =>
+      let chunks : List DChunk := List.replicate n ⟨Hash.zero, [0]⟩
+      let s0 := firstPass (passOracle n l0) (n + 1) chunks (List.replicate n none)
+      let a0 := askedPositions n (List.replicate n none) s0 (n + 1) 0
+      match kv toks "p1" with
+      | none => s!"slots={slotsStr s0} asked0={joinNat a0}"
+      | some p1 =>
+        match parsePassLog p1 with
+        | none => "bad-op"
+        | some l1 =>
+          let s1 := firstPass (passOracle n l1) (n + 1) chunks s0
+          s!"slots={slotsStr s1} asked0={joinNat a0} asked1={joinNat (askedPositions n s0 s1 (n + 1) 0)}"
+    | _, _ => "bad-op"
   | _, _, _ => "bad-op"
 
 end Xet.Drv
